@@ -428,7 +428,31 @@ func (g *Gen) callExpr(t T, d int) *Node {
 
 // Stmt generates one statement (and updates the scope model).
 func (g *Gen) Stmt(d int) *Node { //nolint:gocyclo,funlen // grammar
-	switch g.R.IntN(22) {
+	switch g.R.IntN(23) {
+	case 22: // slice then append twice, the source and both results stay observable (spare capacity must not be shared)
+		a, b, c1, c2 := g.fresh("v"), g.fresh("v"), g.fresh("v"), g.fresh("v")
+		n := 6 + g.R.IntN(12)
+		els := make([]*Node, n)
+		for i := range els {
+			els[i] = Lit(int64(i))
+		}
+		hi := 1 + g.R.IntN(n)
+		lo := g.R.IntN(hi + 1)
+		if g.chance(60) {
+			lo = 0
+		}
+		tail1, tail2 := g.Expr(TInt, 1), g.Expr(TInt, 1)
+		if g.chance(40) {
+			tail1 = MkArr(g.Expr(TInt, 1), g.Expr(TInt, 1))
+		}
+		stmts := []*Node{Assign(a, MkArr(els...)),
+			Assign(b, &Node{K: KSlice, Kids: []*Node{Id(a), Lit(int64(lo)), Lit(int64(hi))}}),
+			Assign(c1, In("+", Id(b), tail1)), Assign(c2, In("+", Id(b), tail2)),
+			Bi("println", Id(a), Id(b), Id(c1), Id(c2))}
+		for _, v := range []string{a, b, c1, c2} {
+			g.declare(v, TArr)
+		}
+		return &Node{K: KIf, Kids: []*Node{Lit(true)}, Body: stmts}
 	case 0, 1, 2, 3: // new / updated variable
 		t := T(g.R.IntN(7))
 		name := g.fresh("v")
